@@ -915,7 +915,7 @@ fn main() {
     e.rec.variant("as_width", if obs.map(|o| o.0).unwrap_or(false) { "repaired" } else { "as-written" });
 
     let mut g = Gen { rng: Rng::new(args.seed) };
-    let (nprog, nin, nh) = if args.thorough { (1500, 40, 1500) } else { (150, 24, 150) };
+    let (nprog, nin, nh) = if args.thorough { (6000, 40, 6000) } else { (900, 30, 600) };
 
     // ---- 1. F-level
     let mut compile_fail = 0;
